@@ -316,6 +316,36 @@ func scenarioSameCodeTwoHandlers(c *w1Case, r *simrt.Rng) {
 	k2.NoteText = fmt.Sprint(k2.Note)
 	other := all[len(all)-1]
 	m.Keys = []model.SubKeys{{Sub: c.d.Handlers[0], Keys: []model.KeyDesc{k, other}}, {Sub: c.d.Handlers[1], Keys: []model.KeyDesc{k2}}}
+	if r.Chance(0.5) {
+		// further mappings that list only some of the handlers (and switches to them in some runs)
+		for mi := 1; mi <= r.Range(1, 2); mi++ {
+			m2 := model.MappingDesc{Name: fmt.Sprintf("M%d", mi)}
+			for _, sk := range c.d.Mappings[0].Keys {
+				if r.Chance(0.5) {
+					m2.Keys = append(m2.Keys, model.SubKeys{Sub: sk.Sub, Keys: append([]model.KeyDesc(nil), sk.Keys...)})
+				}
+			}
+			if len(m2.Keys) == 0 {
+				m2.Keys = append(m2.Keys, model.SubKeys{Sub: c.d.Handlers[0], Keys: []model.KeyDesc{other}})
+			}
+			c.d.Mappings = append(c.d.Mappings, m2)
+		}
+		if r.Chance(0.5) {
+			taken := map[uint16]bool{k.Code: true, other.Code: true}
+			for _, a := range c.d.Actions {
+				taken[a.Code] = true
+			}
+			for _, an := range []string{"mapping_up", "mapping_down"} {
+				for _, kn := range actionKeyPool {
+					if !taken[keyCode(kn)] {
+						taken[keyCode(kn)] = true
+						c.d.Actions = append(c.d.Actions, model.ActionKey{Name: kn, Code: keyCode(kn), Action: an})
+						break
+					}
+				}
+			}
+		}
+	}
 	type hk struct {
 		h    int
 		code uint16
@@ -376,13 +406,32 @@ func genC02(c *w1Case, r *simrt.Rng) {
 	acts = append(acts, "multinote", "cc_learning")
 	o := genOpts{nKeys: [2]int{2, 8}, nMaps: [2]int{1, 3}, notePool: intsRange(30, 100), offsets: true, actions: acts, exitLen: -1, defaults: true,
 		unmapProb: 0.4, remapProb: 0.5, handlers: r.Range(1, 2)}
+	// in a share of the runs sticks and hats are around as well (key emulation, controllers): an action must stay
+	// silent whatever the axes are doing, also a mapping switch away from a deflected key-emulating axis
+	axes := 0
+	if r.Chance(0.3) {
+		axes = r.Range(1, 2)
+		o.axes, o.axisKinds, o.axisKindsPerMapping = axes, []string{"key", "key1", "cc", "cc2", "none"}, true
+		o.nMaps = [2]int{2, 3}
+	}
 	c.d = baseDesc(r, o)
+	if axes > 0 {
+		forceHatLike(c.d, r)
+	}
 	g := newScriptGen(r, c.d)
-	g.steps(r.Range(10, 60), 4, 6, 2, false)
+	n := r.Range(10, 60)
+	for i := 0; i < n; i++ {
+		if axes > 0 && r.Chance(0.25) {
+			g.axisMove(r)
+		} else {
+			g.steps(1, 4, 6, 2, false)
+		}
+	}
 	g.releaseAll()
+	g.axesToCentre()
 	c.script = g.out
 	c.state = r.Chance(0.3)
-	c.burst = r.Chance(0.2)
+	c.burst = axes == 0 && r.Chance(0.2)
 }
 
 func genC03(c *w1Case, r *simrt.Rng) {
@@ -440,7 +489,7 @@ func genC04Hats(c *w1Case, r *simrt.Rng) {
 	// third action of canPressAction). A hat may be released at any time.
 	mixed := r.Chance(0.4)
 	if mixed {
-		o.actions = transposeActions
+		o.actions = append(append([]string{}, transposeActions...), "cc_learning")
 	}
 	c.d = baseDesc(r, o)
 	pairs := [][2]string{{"octave_up", "octave_down"}, {"semitone_up", "semitone_down"}, {"channel_up", "channel_down"}, {"mapping_up", "mapping_down"}}
@@ -596,25 +645,108 @@ func genC13(c *w1Case, r *simrt.Rng) {
 	acts := append([]string{"panic"}, transposeActions...)
 	o := genOpts{nKeys: [2]int{2, 10}, nMaps: [2]int{1, 2}, notePool: []int{60, 60, 62, 64, 72, 48}, offsets: r.Chance(0.5), actions: acts, exitLen: -1, defaults: true,
 		unmapProb: 0.2, remapProb: 0.3, handlers: 1}
+	// panic on a hat in a share of the runs (one direction, or both); in further mappings the same hat is a
+	// controller or is not mapped at all, so a deflection may begin in one mapping and end in another
+	hat := r.Chance(0.25)
+	if hat {
+		o.nMaps = [2]int{1, 3}
+	}
 	c.d = baseDesc(r, o)
+	var hatAxis model.AxisDesc
+	if hat {
+		hn := hatAxes[r.Intn(len(hatAxes))]
+		hatAxis = model.AxisDesc{Name: hn, Code: absCode(hn), Type: "action", Action: sp("panic"), Min: -1, Max: 1, Deadzone: fp(0), Flip: r.Chance(0.3)}
+		if r.Chance(0.3) {
+			hatAxis.ActionNeg = sp("panic")
+		}
+		for mi := range c.d.Mappings {
+			ax := hatAxis
+			if mi > 0 {
+				switch r.Intn(3) {
+				case 0:
+					ax = model.AxisDesc{Name: hn, Code: hatAxis.Code, Type: "cc", CC: ip(20 + mi), Min: -1, Max: 1, Deadzone: fp(0)}
+				case 1:
+					continue // not mapped here
+				}
+			}
+			c.d.Mappings[mi].Analog = []model.SubAnalog{{Sub: "", Axes: []model.AxisDesc{ax}}}
+		}
+	}
 	g := newScriptGen(r, c.d)
 	pk := c.d.Actions[0]
 	n := r.Range(6, 40)
+	hatPos := int32(0)
 	for i := 0; i < n; i++ {
-		if r.Chance(0.15) {
+		switch {
+		case hat && len(c.d.Mappings) > 1 && hatPos == 0 && len(g.actDown) == 0 && r.Chance(0.08):
+			// a deflection that begins in one mapping and ends in another, then the next one
+			tapAct := func(name string) {
+				for _, ak := range c.d.Actions {
+					if ak.Action == name && g.pressAction(ak) {
+						g.release(ak.Code)
+					}
+				}
+			}
+			v := []int32{-1, 1}[r.Intn(2)]
+			away, back := "mapping_up", "mapping_down"
+			if r.Chance(0.5) {
+				away, back = back, away
+			}
+			g.out = append(g.out, model.Event{Kind: "abs", Code: hatAxis.Code, Value: v})
+			tapAct(away)
+			g.out = append(g.out, model.Event{Kind: "abs", Code: hatAxis.Code, Value: 0})
+			tapAct(back)
+			g.out = append(g.out, model.Event{Kind: "abs", Code: hatAxis.Code, Value: v}, model.Event{Kind: "abs", Code: hatAxis.Code, Value: 0})
+		case hat && r.Chance(0.3):
+			v := []int32{-1, 0, 1, 0}[r.Intn(4)]
+			if v != 0 && (!g.canPressAction("panic") || g.actDown["panic"]) {
+				v = 0 // never a third action while a pair of keys is held, never key and hat on the same action
+			}
+			if v != hatPos {
+				hatPos = v
+				g.out = append(g.out, model.Event{Kind: "abs", Code: hatAxis.Code, Value: v})
+			}
+		case r.Chance(0.15):
+			if hatPos != 0 && !g.down[pk.Code] {
+				continue
+			}
 			if g.pressAction(pk) && r.Chance(0.7) {
 				g.release(pk.Code)
 			}
-		} else {
+		case hatPos != 0:
+			// as steps(), without the panic key
+			switch r.Pick(6, 2, 2) {
+			case 0:
+				if k := g.noteK[r.Intn(len(g.noteK))]; g.down[k.Code] {
+					g.release(k.Code)
+				} else {
+					g.key(k.Code, 1)
+				}
+			case 1:
+				ak := c.d.Actions[1+r.Intn(len(c.d.Actions)-1)]
+				if g.down[ak.Code] {
+					g.release(ak.Code)
+				} else if g.pressAction(ak) && r.Chance(0.6) {
+					g.release(ak.Code)
+				}
+			case 2:
+				if len(g.order) > 0 {
+					g.release(g.order[r.Intn(len(g.order))])
+				}
+			}
+		default:
 			g.steps(1, 6, 2, 2, false)
 		}
+	}
+	if hat && hatPos != 0 {
+		g.out = append(g.out, model.Event{Kind: "abs", Code: hatAxis.Code, Value: 0})
 	}
 	g.releaseAll()
 	g.steps(r.Range(2, 8), 5, 1, 2, false)
 	g.releaseAll()
 	c.script = g.out
 	c.state = r.Chance(0.5)
-	c.burst = r.Chance(0.4)
+	c.burst = !hat && r.Chance(0.4)
 }
 
 func genC14(c *w1Case, r *simrt.Rng) {
